@@ -20,7 +20,7 @@ SELECTORS = ['*', 'INPUT', 'OUTPUT', 'FULLY_CONNECTED', 'BATCH_MATMUL',
 OP_SELECTORS = [s for s in SELECTORS if s not in ('*',)]
 
 # ---- config specs -----------------------------------------------------------
-# cfg = {'act': None|[bits, sym], 'w': None|[bits, sym, gran, dtype],
+# cfg = {'act': None|[bits, sym], 'w': None|[bits, sym, gran, dtype(, block_size)],
 #        'cp': 'INTEGER'|'FLOAT', 'ed': bool, 'skip': bool}
 
 
@@ -60,7 +60,7 @@ def tensor_config(t, dtype=None):
         dtype=qtyping.TensorDataType.INT)
   return qtyping.TensorQuantizationConfig(
       num_bits=t[0], symmetric=t[1], granularity=qtyping.QuantGranularity(t[2]),
-      dtype=qtyping.TensorDataType(t[3]))
+      dtype=qtyping.TensorDataType(t[3]), block_size=t[4] if len(t) > 4 else 0)
 
 
 def make_config(c):
@@ -78,7 +78,7 @@ def config_dict(c):
     if len(t) == 2:
       t = [t[0], t[1], 'TENSORWISE', 'INT']
     return {'num_bits': t[0], 'symmetric': t[1], 'granularity': t[2],
-            'dtype': t[3], 'block_size': 0}
+            'dtype': t[3], 'block_size': t[4] if len(t) > 4 else 0}
   d = {}
   if c['act'] is not None:
     d['activation_tensor_config'] = td(c['act'])
